@@ -182,6 +182,9 @@ class World:
         NamespaceManager.policies.clear()
         NamespaceManager.policies.update(_BASE["policies"])
         nm = sdn.namespace_manager
+        # the readers assign namespace_manager.default on the INSTANCE, which then shadows the class
+        # attribute for the rest of the process: a fresh process has no such instance attribute
+        nm.__dict__.pop("default", None)
         nm.namespaces.clear()
         nm.ignore_ns_change = False
         _href_mod.flyweight.clear()
@@ -202,11 +205,12 @@ class World:
     # -- volatile state accessors used by oracles ---------------------------------
     @staticmethod
     def policy():
-        return NamespaceManager.default
+        return sdn.namespace_manager.default
 
     @staticmethod
     def set_policy(v):
-        NamespaceManager.default = v
+        # the way the readers (and users) switch it: through the plugin instance
+        sdn.namespace_manager.default = v
 
     @staticmethod
     def process_state_fingerprint():
@@ -217,7 +221,7 @@ class World:
             for n in _CONTAINERS
         )
         looks = tuple(sorted((k, getattr(v, "__name__", "?")) for k, v in _gsv._registered_lookups.items()))
-        return (NamespaceManager.default, conts, looks,
+        return (sdn.namespace_manager.default, conts, looks,
                 sdn.namespace_manager.ignore_ns_change)
 
     @staticmethod
